@@ -25,7 +25,7 @@ theorem interval_pos : 0 < interval := by decide
 /-- The exception in flight when `stop` begins. -/
 def pendingAtStop (f : Faults) (entered : Bool) : Option Exc :=
   if entered then
-    (if f.disconnectFails then some .disconnectErr else if f.bodyRaises then some .bodyErr else none)
+    (if f.disconnectFails then some .disconnectErr else bodyExit f)
   else some .connectErr
 
 /-- What has to be true once the context statement has completed. -/
@@ -61,7 +61,7 @@ def Inv (s : Sys) : Prop :=
       s.cancelReq = false ∧ s.faults.loadFails = false ∧ s.faults.connectFails = false ∧ s.loaded = true
   | .disconnect => s.saver.alive = true ∧ s.saver ≠ .inSave .unwinding ∧ s.started = true ∧ s.entered = true ∧
       s.cancelReq = false ∧ s.faults.loadFails = false ∧ s.faults.connectFails = false ∧
-      s.pending = (if s.faults.bodyRaises then some .bodyErr else none)
+      s.pending = bodyExit s.faults
   | .stopCancel => s.saver.alive = true ∧ s.saver ≠ .inSave .unwinding ∧ s.cancelReq = false ∧ StopCtx s
   | .stopAwait => (s.saver.alive = true → s.cancelReq = true) ∧ s.saver ≠ .absent ∧ s.saver ≠ .failed ∧ StopCtx s
   | .finalSave ph => s.saver.alive = false ∧ s.saver ≠ .absent ∧ s.saver ≠ .failed ∧ StopCtx s ∧ s.fsnap = s.reg ∧
@@ -98,7 +98,7 @@ theorem inv_saver (s : Sys) (lands : Bool) (hr : saverRunnable s = true) (h : In
 theorem inv_main (s : Sys) (hr : mainRunnable s = true) (h : Inv s) : Inv (mainStep s) := by
   obtain ⟨f, main, saver, cancelReq, now, t0, reg, snap, fsnap, file, saveStarts, loaded, started, entered,
     disconnectTried, finalSaveDone, pending, outcome⟩ := s
-  obtain ⟨loadFails, connectFails, bodyRaises, disconnectFails, finalSaveFails⟩ := f
+  obtain ⟨loadFails, connectFails, bodyRaises, disconnectFails, finalSaveFails, bodyCancelled⟩ := f
   rcases main with _|_|_|_|_|_|_|⟨_|_|_|_⟩|_
   case load => cases loadFails <;> simp_all [Inv, mainStep, Final, expectedOutcome, SaverPc.alive]
   case start => simp_all [Inv, mainStep, SaverPc.alive]
